@@ -1155,13 +1155,42 @@ func init() {
 }
 
 func runX14(p *an.Prog, r *an.Result) {
+	// the conversion routine and the helpers that only it calls (convertToMap, ...): converting is their
+	// purpose, to the type the caller of Convert names
+	routine := map[*ssa.Function]bool{}
+	for _, n := range []string{"values.Convert", "values.MustConvert"} {
+		if f := p.Func(n); f != nil {
+			routine[f] = true
+		}
+	}
+	if cf := p.Func("values.Convert"); cf != nil {
+		for changed := true; changed; {
+			changed = false
+			for _, h := range unitWithHelpers(p, cf) {
+				if routine[h] || h.Pkg != cf.Pkg {
+					continue
+				}
+				sites := callSitesOf(p, h)
+				all := len(sites) > 0
+				for _, cs := range sites {
+					if !routine[an.Outermost(cs.Parent())] {
+						all = false
+					}
+				}
+				if all {
+					routine[h] = true
+					changed = true
+				}
+			}
+		}
+	}
 	for _, fn := range p.Funcs {
 		if isMainPkg(fn) || p9OutOfScope(p, fn) != "" {
 			continue
 		}
 		o := an.Outermost(fn)
-		if n := an.FuncName(o); n == "values.Convert" || n == "values.MustConvert" {
-			continue // the conversion routine: converting is its purpose, to the type its caller names
+		if routine[o] {
+			continue
 		}
 		name := an.FuncName(fn)
 		an.EachInstr(fn, func(in ssa.Instruction) {
